@@ -41,11 +41,21 @@ theorem precedence (e : NumEnc) (items : Items) (parsed : PyVal) (sel : Option C
   | some cal => rfl
   | none => cases e.cals.default <;> rfl
 
+theorem calInputFor_ok (cal : Calibrator) (v : PyVal) (x : Rat) (h : calInputFor cal v = .ok x) : calInput v = .ok x := by
+  unfold calInputFor at h
+  split at h
+  · cases h
+  · exact h
+
+/-- A NaN raw value under a spline calibrator is a calibration error, with or without extrapolation. -/
+theorem spline_nan (s : Spline) : applyCal (.spline s) (.flt .nan) = .error .calibration := by
+  simp [applyCal, calInputFor, bind, Except.bind]
+
 /-- Every calibrated result is a float and keeps the uncalibrated value as its raw value. -/
 theorem calibrated_is_float (cal : Calibrator) (parsed : PyVal) (v : Param) (h : applyCal cal parsed = .ok v) :
     v.cls = .FloatP ∧ v.raw = parsed ∧ ∃ x y, calInput parsed = .ok x ∧ cal.calibrate x = .ok y ∧ v.val = .flt (.fin y) := by
   unfold applyCal at h
-  cases hx : calInput parsed with
+  cases hx : calInputFor cal parsed with
   | error e => simp [hx, bind, Except.bind] at h
   | ok x =>
     cases hy : cal.calibrate x with
@@ -55,7 +65,7 @@ theorem calibrated_is_float (cal : Calibrator) (parsed : PyVal) (v : Param) (h :
       by_cases hd : isDouble y = true
       · simp only [hd, if_true, pure, Except.pure] at h
         injection h with h; subst h
-        exact ⟨rfl, rfl, x, y, rfl, hy, rfl⟩
+        exact ⟨rfl, rfl, x, y, calInputFor_ok cal parsed x hx, hy, rfl⟩
       · simp only [hd, if_false] at h
         contradiction
 
